@@ -15,15 +15,34 @@ RULE = ("2-3 real threads, each with a script of 1-4 calls (single and call_batc
         "completion); yield points = call events in every twosigma.memento module and line events in runner_local, runner, "
         "call_stack, storage_base, storage_memory, storage_filesystem; non-trivial = at least one pre-emption or forced "
         "switch happened; distinct = distinct sequence of (thread, memento-level function entered)")
-ASSUMPTIONS = ["pre-emption at line granularity in the runner/storage modules and call granularity elsewhere (CPython could switch between bytecodes of one line)",
+ASSUMPTIONS = ["pre-emption at line granularity in the runner/storage modules and call granularity elsewhere; 15% of the sampled cases pre-empt between the bytecodes of one line in those modules, 20% add line granularity in memento.py, base.py, context.py, code_hash.py",
                "user function bodies and non-memento library code are atomic steps",
                "locks are wrapped so that waiting is a scheduler decision; the locks themselves are real"]
 COMPONENTS = {"real": ["twosigma.memento (all)", "real threads, real thread-local call stacks, real locks", "tmpfs"],
               "stub": ["choice of which thread runs next (seeded scheduler)", "lock waiting", "uuid4, clock"]}
-REACH = ["preemptions", "forced_switches", "lock_contention", "cache_evictions", "batch_calls", "schedules_with_same_key_race"]
+REACH = ["granularity:opcode", "granularity:wide", "context_calls", "exception_calls", "stale_version_runs", "preemptions", "forced_switches", "lock_contention", "cache_evictions", "batch_calls", "schedules_with_same_key_race"]
 
 PROGRAM = '''
 import twosigma.memento as m
+from twosigma.memento.partition import InMemoryPartition
+
+@m.memento_function
+def bad(x):
+    __vtrace__("bad", x)
+    raise ValueError("bad %d" % x)
+
+@m.memento_function
+def catcher(x):
+    __vtrace__("catcher", x)
+    try:
+        bad(x)
+    except ValueError as e:
+        return ["caught", str(e)[:5], leaf(x)]
+
+@m.memento_function
+def part(x):
+    __vtrace__("part", x)
+    return InMemoryPartition({"a": leaf(x), "b": [x, "p"]})
 
 @m.memento_function
 def leaf(x):
@@ -47,7 +66,21 @@ def top(x):
 '''
 
 
+EXTRA = '''
+@m.memento_function
+def extra(x):
+    return x
+'''
+
+
 def expect(fn, x):
+    if fn == "bad":
+        return ExpectedExc("ValueError", "bad %d" % x)
+    if fn == "catcher":
+        return ["caught", ("bad %d" % x)[:5], expect("leaf", x)]
+    if fn == "part":
+        from twosigma.memento.partition import InMemoryPartition
+        return InMemoryPartition({"a": expect("leaf", x), "b": [x, "p"]})
     if fn == "leaf":
         return "L" * 700 + str(x)
     if fn == "mid":
@@ -59,13 +92,31 @@ def expect(fn, x):
     raise KeyError(fn)
 
 
-def closure(fn, x):
-    """distinct calls (incl. nested) behind one call"""
-    if fn == "leaf" or fn == "f":
-        return {(fn, x)}
+class ExpectedExc:
+    def __init__(self, cls, msg):
+        self.cls, self.msg = cls, msg
+
+
+def matches(got, exp):
+    """got: ["ok", value] | ["exc", class name, message, traceback] | an exception object in a batch slot"""
+    if isinstance(exp, ExpectedExc):
+        if isinstance(got, BaseException):
+            return type(got).__name__ == exp.cls and str(got).startswith(exp.msg)
+        return False
+    return not isinstance(got, BaseException) and values.deep_equal(got, exp)
+
+
+def closure(fn, x, ctx=None):
+    """distinct calls (incl. nested) behind one call; ctx = the context argument they run under"""
+    if fn in ("leaf", "f", "bad"):
+        return {(fn, x, ctx)}
     if fn == "mid":
-        return {(fn, x), ("leaf", x), ("leaf", x + 1)}
-    return {(fn, x)} | closure("mid", x) | closure("f", x)
+        return {(fn, x, ctx), ("leaf", x, ctx), ("leaf", x + 1, ctx)}
+    if fn == "catcher":
+        return {(fn, x, ctx), ("bad", x, ctx), ("leaf", x, ctx)}
+    if fn == "part":
+        return {(fn, x, ctx), ("leaf", x, ctx)}
+    return {(fn, x, ctx)} | closure("mid", x, ctx) | closure("f", x, ctx)
 
 
 def gen_case(seed, tier):
@@ -77,6 +128,9 @@ def gen_case(seed, tier):
     if backend == "memory" and scenario == "warm-store":
         scenario = "warm-cache"
     fns = ["f", "leaf", "mid", "top"]
+    rich = rng.random() < 0.5     # exceptions, partitions, context arguments, ignore_result
+    if rich:
+        fns = fns + ["bad", "catcher", "part"]
     threads = {}
     base = [rng.choice(fns), rng.randrange(3)]
     for t in range(nthreads):
@@ -88,8 +142,13 @@ def gen_case(seed, tier):
                 fn, x = rng.choice(fns), rng.randrange(3) + 10 * t
             else:
                 fn, x = (base if rng.random() < 0.5 else (rng.choice(fns), rng.randrange(3)))
-            if rng.random() < 0.25:
+            r = rng.random()
+            if r < 0.25:
                 script.append(["batch", fn, [x, rng.randrange(3), x]])
+            elif rich and r < 0.37:
+                script.append(["ctx", fn, x, rng.randrange(2)])
+            elif rich and r < 0.45:
+                script.append(["ign", fn, x])
             else:
                 script.append(["call", fn, x])
         threads["T%d" % t] = script
@@ -100,7 +159,23 @@ def gen_case(seed, tier):
         strat = {"kind": "pct", "d": rng.choice([1, 2, 3]), "horizon": rng.choice([600, 1500, 4000])}
     else:
         strat = {"kind": "sweep", "at": rng.randrange(1, 3000), "to": rng.randrange(2), "first": rng.randrange(nthreads)}
-    return {"seed": seed, "backend": backend, "scenario": scenario, "keymode": keymode, "threads": threads, "strategy": strat}
+    case = {"seed": seed, "backend": backend, "scenario": scenario, "keymode": keymode, "threads": threads, "strategy": strat}
+    g = rng.random()
+    if g < 0.15:
+        case["granularity"] = "opcode"    # pre-emption between the bytecodes of one line in the runner / storage modules
+        if strat["kind"] == "random":
+            strat["p"] = strat["p"] / 4
+        elif strat["kind"] == "pct":
+            strat["horizon"] = strat["horizon"] * 6
+        else:
+            strat["at"] = strat["at"] * 6
+    elif g < 0.35:
+        case["granularity"] = "wide"      # line-level pre-emption also in memento.py, base.py, context.py, code_hash.py
+        if strat["kind"] == "pct":
+            strat["horizon"] = strat["horizon"] * 2
+    if rng.random() < 0.3:
+        case["stale_versions"] = True   # a definition after the program was loaded: every version is recomputed by the racing threads
+    return case
 
 
 def cases(tier, seed):
@@ -128,6 +203,10 @@ def _run_script(mod, script):
         try:
             if op[0] == "call":
                 res.append(["ok", getattr(mod, op[1])(op[2])])
+            elif op[0] == "ctx":
+                res.append(["ok", getattr(mod, op[1]).with_context_args({"k": op[3]})(op[2])])
+            elif op[0] == "ign":
+                res.append(["ok", getattr(mod, op[1]).ignore_result()(op[2])])
             else:
                 r = getattr(mod, op[1]).call_batch([{"x": x} for x in op[2]], raise_first_exception=False)
                 res.append(["ok", r])
@@ -135,7 +214,7 @@ def _run_script(mod, script):
             raise
         except BaseException as e:  # noqa
             import traceback
-            res.append(["exc", type(e).__name__, str(e)[:200], traceback.format_exc()[-1200:]])
+            res.append(["exc", type(e).__name__, str(e)[:200], traceback.format_exc()[-1200:], e])
     return res
 
 
@@ -147,8 +226,8 @@ def execute(case):
     all_calls = set()
     for script in case["threads"].values():
         for op in script:
-            for x in ([op[2]] if op[0] == "call" else op[2]):
-                all_calls |= closure(op[1], x)
+            for x in (op[2] if op[0] == "batch" else [op[2]]):
+                all_calls |= closure(op[1], x, op[3] if op[0] == "ctx" else None)
 
     def prelife(emit):
         world.install_seams(case["seed"])
@@ -175,7 +254,14 @@ def execute(case):
             for script in case["threads"].values():
                 _run_script(mod, script)
             side.take()
-        sch = simsched.Scheduler(core.stream(case["seed"], "sched"), case["strategy"])
+        if case.get("stale_versions"):
+            world.load_module("vprog", EXTRA)
+        gran = case.get("granularity", "line")
+        sch = simsched.Scheduler(core.stream(case["seed"], "sched"), case["strategy"],
+                                 step_cap=400000 if gran == "opcode" else 120000 if gran == "wide" else 60000,
+                                 line_modules=simsched.LINE_MODULES + (("memento.py", "base.py", "context.py", "code_hash.py")
+                                                                       if gran == "wide" else ()),
+                                 opcodes=gran == "opcode")
         for name in sorted(case["threads"]):
             sch.add(name, (lambda s: (lambda: _run_script(mod, s)))(case["threads"][name]))
         finished = sch.run(wall_timeout=core.LIFETIME_TIMEOUT * 0.6)
@@ -189,6 +275,9 @@ def execute(case):
         runs = {}
         for ev in side.take():
             runs[(ev[0], ev[1])] = runs.get((ev[0], ev[1]), 0) + 1
+        want_runs = {}
+        for (fn_, x_, ctx_) in all_calls:      # one execution per distinct call = per (function, argument, context)
+            want_runs[(fn_, x_)] = want_runs.get((fn_, x_), 0) + 1
         results = {}
         if not viol:
             for name in sorted(case["threads"]):
@@ -198,18 +287,27 @@ def execute(case):
                     continue
                 out = []
                 for op, r in zip(case["threads"][name], t.result or []):
+                    exp1 = expect(op[1], op[2]) if op[0] != "batch" else None
                     if r[0] != "ok":
+                        if isinstance(exp1, ExpectedExc) and matches(r[4], exp1):
+                            out.append("raised-as-expected")    # the function's own (memoized) exception, not an internal error
+                            continue
                         viol.append(("exception-escaped-to-caller", {"exc": r[1]}, {"thread": name, "op": op, "msg": r[2], "tb": r[3]}))
                         out.append(r[:2])
                         continue
-                    exp = expect(op[1], op[2]) if op[0] == "call" else [expect(op[1], x) for x in op[2]]
-                    if not values.deep_equal(r[1], exp):
+                    if op[0] == "batch":
+                        good = len(r[1]) == len(op[2]) and all(matches(g, expect(op[1], x)) for g, x in zip(r[1], op[2]))
+                    elif op[0] == "ign":
+                        good = r[1] is None and not isinstance(exp1, ExpectedExc)
+                    else:
+                        good = matches(r[1], exp1)
+                    if not good:
                         viol.append(("wrong-value", {"op": op[0]}, {"thread": name, "op": op, "got": values.summary(r[1])}))
                     out.append("ok")
                 results[name] = out
-            for c in sorted(all_calls):
+            for c in sorted(want_runs):
                 n = runs.get(c, 0)
-                want = 0 if warm else 1
+                want = 0 if warm else want_runs[c]
                 if n != want:
                     viol.append(("body-run-count", {"runs": "many" if n > want else "none", "scenario": "warm" if warm else "cold"},
                                  {"call": list(c), "runs": n, "expected": want}))
@@ -228,17 +326,21 @@ def execute(case):
                     if e.has_value:
                         fa = e.memento.invocation_metadata.fn_reference_with_args
                         exp = expect(fa.fn_reference.function_name, fa.effective_kwargs["x"])
-                        if not values.deep_equal(e.value, exp):
+                        if not isinstance(exp, ExpectedExc) and not values.deep_equal(e.value, exp):
                             viol.append(("cache-holds-wrong-value", {}, {"key": key}))
                             break
         coarse = core.digest_of(sch.coarse)
         st = dict(sch.stats)
         if mc is not None:
-            st["cache_evictions"] = sum(1 for c in all_calls if not any(k.split("/")[0].split(":")[1].startswith(c[0] + "#") and
+            st["cache_evictions"] = sum(1 for c in sorted(want_runs) if not any(k.split("/")[0].split(":")[1].startswith(c[0] + "#") and
                                         e.memento.invocation_metadata.fn_reference_with_args.effective_kwargs.get("x") == c[1]
                                         for k, e in mc.cache.items()))
         st["steps"] = sch.steps
         st["batch_calls"] = sum(1 for s in case["threads"].values() for op in s if op[0] == "batch")
+        st["context_calls"] = sum(1 for s in case["threads"].values() for op in s if op[0] == "ctx")
+        st["exception_calls"] = sum(1 for s in case["threads"].values() for op in s if op[1] in ("bad", "catcher"))
+        st["stale_version_runs"] = 1 if case.get("stale_versions") else 0
+        st["granularity:" + gran] = 1
         emit({"viol": [[c, f, d] for c, f, d in viol], "stats": st, "results": results, "switches": sch.switches,
               "coarse": coarse, "runs": sorted([list(k) + [v] for k, v in runs.items()])})
 
